@@ -2,9 +2,12 @@
 `reqparse <text>`; `giturl <text>`; `dep508 <text> <probe versions…> | <envs…>`; `deprt <text>`;
 `depmk registry|url|vcs <args…> <marker> <python> <pyFirst> <in_extras> <probe versions…> | <envs…>` (constructors, the
 `marker` / `python_versions` setters, `_in_extras` as factory.py records it);
-`depeq <text> <text>` (`__eq__`, `is_same_source_as`, hash keys equal). -/
+`depeq <text> <text>` (`__eq__`, `is_same_source_as`, hash keys equal);
+`dep02 <name> <version> <python> <platform> <markers> <extras,> <optional 0|1> <in_extras,> <envs…>` (C02: the Requires-Dist
+line of one table declaration, `-` = none / `=text`), `pyfmt <python versions>` (Requires-Python), `provx <extra keys…>`. -/
 import PoetryVerif.Protocol
 import PoetryVerif.Model.Dep
+import PoetryVerif.Model.Dep02
 import PoetryVerif.Drv.Marker
 
 namespace Poetry.Drv.DepH
@@ -102,6 +105,21 @@ def handleDep (op : String) (args : List String) : Option String :=
     some (depResult (do
       let d ← mkVcsDep name vcs source (optArg branch) (optArg tag) (optArg rev) (optArg dir) (extrasArg extras)
       applySetters d (optArg marker) (optArg py) (pyFirst == "1") inEx) probes envs)
+  | "dep02", name :: version :: python :: platform :: markers :: extras :: optional :: inEx :: envs =>
+    let D : Dep02.Decl := { name, version, python := optArg python, platform := optArg platform, markers := optArg markers,
+                            extras := extrasArg extras, optional := optional == "1", inExtras := extrasArg inEx }
+    some <| match Dep02.packageDependency D with
+    | .error e => "err\t" ++ e.name
+    | .ok d =>
+      "ok\t" ++ boolStr (Dep02.selected d) ++ "\t" ++ textOf (d.toPep508 true) ++ "\t" ++ encode d.marker.dump ++ "\t" ++
+        encode (joinWith "," d.inExtras) ++ "\t" ++ boolStr d.optional ++ "\t" ++
+        encode (String.join (envs.map fun e => truthChar (d.marker.validate (parseEnv e))))
+  | "pyfmt", [pv] =>
+    some <| match Dep02.requiresPython pv with
+    | .ok none => "ok\t-"
+    | .ok (some t) => "ok\t" ++ encode ("=" ++ t)
+    | .error e => "err\t" ++ e.name
+  | "provx", keys => some ("ok\t" ++ encode (joinWith "," (Dep02.providesExtra keys)))
   | "depeq", [a, b] =>
     some <| match createFromPep508 a, createFromPep508 b with
     | .ok x, .ok y =>
